@@ -192,4 +192,88 @@ theorem existing_label_resolves_to_its_object (h : List Op) (hl : LabelsDistinct
     (ha : attach h l = some n) : ((run h).idref r s).map Target.meaning = some (.object n) := by
   rw [resolve_order_independent h hl hr r s l h0 hm, ha]; rfl
 
+/-! ### labels pre-loaded from other jobs (`Context.restore`, `Compile.parse`) -/
+
+/-- **Pre-loaded labels do not disturb the document's own references.**  Start from any state that
+    `Context.restore` can leave (`Inv R [] st0`, `R` = the restored labels).  If no label written in the
+    document is among the restored ones, every reference to a label of the document resolves exactly
+    as in `resolve_order_independent` (before or after its label), and every other reference holds
+    what the restored table says (the foreign object, or a placeholder). -/
+theorem resolve_with_restored {R : Label → Prop} (st0 : State) (hst : Inv R [] st0) (h : List Op)
+    (hl : LabelsDistinct h) (hr : RefKeysDistinct h) (hR : ∀ l ∈ labelNames h, ¬ R l)
+    (r : RefId) (s : Slot) (l : Label) (h0 : l ≠ 0) (hm : Op.ref r s l ∈ h) :
+    (runFrom st0 h).idref r s = some (
+      if l ∈ labelNames h then
+        (match attachFrom st0.current h l with
+         | some n => .node n
+         | none => .placeholder l)
+      else
+        (match st0.labels l with
+         | some n => .node n
+         | none => .placeholder l)) := by
+  have hi := inv_runFrom st0 hst h hl hr hR
+  have h1 := (hi.refsOk r s l h0 hm).1
+  rw [h1]; unfold target
+  by_cases hmem : l ∈ labelNames h
+  · have hnone : st0.labels l = none := by
+      cases hc : st0.labels l with
+      | none => rfl
+      | some n =>
+        rcases hst.labelled l n hc with h' | h'
+        · simp [labelNames] at h'
+        · exact absurd h' (hR l hmem)
+    have := labels_eq_attachFrom h st0 l hl hnone
+    simp only [runFrom, this, hmem, if_true]
+    cases attachFrom st0.current h l <;> rfl
+  · have := labels_unchanged h st0 l hmem
+    simp only [runFrom, this, hmem, if_false]
+    cases st0.labels l <;> rfl
+
+/-- `Compile.parse` never looks at the job's own `.paux`: whatever a previous run of the same job
+    left behind has no influence on the parse. -/
+theorem own_paux_is_ignored (job : Nat) (files : List PauxFile) (stale : List Entry) (h : List Op) :
+    compileParse job (⟨job, stale⟩ :: files) h = compileParse job files h := by
+  simp [compileParse, List.filter_cons]
+
+/-- The command-line pipeline: with the other jobs' labels pairwise distinct and distinct from the
+    document's own labels, every reference to a label of the document resolves to the object current
+    at its `\label` (or to a placeholder if that names nothing), whatever `.paux` files are around —
+    in particular a stale one of the same job. -/
+theorem compile_resolves_current_document (job : Nat) (files : List PauxFile) (h : List Op)
+    (hl : LabelsDistinct h) (hr : RefKeysDistinct h)
+    (hlabs : (((files.filter (fun f => f.job ≠ job)).flatMap PauxFile.entries).map Entry.lab).Nodup)
+    (hnodes : (((files.filter (fun f => f.job ≠ job)).flatMap PauxFile.entries).map Entry.node).Nodup)
+    (hdis : ∀ l ∈ labelNames h, l ∉ ((files.filter (fun f => f.job ≠ job)).flatMap PauxFile.entries).map Entry.lab)
+    (r : RefId) (s : Slot) (l : Label) (h0 : l ≠ 0) (hm : Op.ref r s l ∈ h) (hown : l ∈ labelNames h) :
+    (compileParse job files h).idref r s = some (match attach h l with
+                                                 | some n => .node n
+                                                 | none => .placeholder l) := by
+  unfold compileParse
+  rw [foldl_restoreAll]
+  have hst := inv_restoreAll _ hlabs hnodes
+  have := resolve_with_restored _ hst h hl hr hdis r s l h0 hm
+  rw [this]
+  simp only [hown, if_true, restoreAll_current, attach]
+  rfl
+
+/-- a second run of job 1 after an edit: the stale `.paux` of job 1 still lists label 5 (on the old
+    object 99, number 2) and the removed label 6; job 2 contributes label 7 -/
+def demoFiles : List PauxFile := [⟨1, [⟨5, 99, 2⟩, ⟨6, 98, 1⟩]⟩, ⟨2, [⟨7, 97, 4⟩]⟩]
+def demoDoc : List Op :=
+  [.ref 1 0 5, .ref 2 0 6, .ref 3 0 7, .numbered 10, .number 10 1, .numbered 11, .number 11 3, .label 5 none, .ref 4 0 5]
+
+example : (compileParse 1 demoFiles demoDoc).idref 1 0 = some (.node 11) ∧
+    (compileParse 1 demoFiles demoDoc).idref 4 0 = some (.node 11) ∧
+    (compileParse 1 demoFiles demoDoc).idref 2 0 = some (.placeholder 6) ∧
+    (compileParse 1 demoFiles demoDoc).idref 3 0 = some (.node 97) ∧
+    printed (compileParse 1 demoFiles demoDoc) 1 0 = some 3 := by decide
+
+/-- Why the own file must be skipped (and why `hR` is needed): a loader that also restores the stale
+    entries of the same job makes the forward references hold the old detached object with the old
+    number, the backward one the real object, and a reference to a removed label an object. -/
+theorem stale_own_labels_counterexample :
+    let st := runFrom (restoreAll init (demoFiles.flatMap PauxFile.entries)) demoDoc
+    st.idref 1 0 = some (.node 99) ∧ st.idref 4 0 = some (.node 11) ∧ st.idref 2 0 = some (.node 98) ∧
+    printed st 1 0 = some 2 := by decide
+
 end PlasVerif.Properties.C09
